@@ -1596,10 +1596,15 @@ impl Expr {
                             ))
                         }
                     }
-                    ScalarFunction::DateTrunc => Ok(ArrowDataType::Timestamp(
-                        arrow::datatypes::TimeUnit::Microsecond,
-                        None,
-                    )),
+                    // DATE_TRUNC(unit, x) returns x's type: the kernel builds a Date32Array for
+                    // Date32 input and a TimestampMicrosecondArray for timestamp input.
+                    ScalarFunction::DateTrunc => match args.get(1).map(|a| a.data_type(schema)) {
+                        Some(Ok(ArrowDataType::Date32)) => Ok(ArrowDataType::Date32),
+                        _ => Ok(ArrowDataType::Timestamp(
+                            arrow::datatypes::TimeUnit::Microsecond,
+                            None,
+                        )),
+                    },
                     ScalarFunction::DateDiff => Ok(ArrowDataType::Int64),
                     ScalarFunction::DatePart => Ok(ArrowDataType::Float64),
                     // TryCast and Try preserve input type or return null
